@@ -272,6 +272,9 @@ func runC02(seed int64, n int, tier string) *Result {
 		if fail == "" && i%4 == 0 {
 			fail = nodeCase(r, res.Hist)
 		}
+		if fail == "" {
+			fail = readGroupCase(rand.New(rand.NewSource(seed*7919+int64(i))), res.Hist)
+		}
 		res.Cases = append(res.Cases, Case{Gallina: g, Input: in, Nontrivial: nt, OracleFail: fail})
 	}
 	return res
@@ -680,6 +683,61 @@ func nodeCase(r *rand.Rand, hist map[string]int) (fail string) {
 		if !ok {
 			return fmt.Sprintf("node level (topology %d, wiring %v): request %d (payload %d) of %v was answered %s, expected %v; all answers %v", topo, w.wire, i, v, reqs, got[i], want, got)
 		}
+	}
+	return ""
+}
+
+// ---- ReadGroup (the many-to-one node's collector): 2-4 readers, packets arriving in any interleaving ----
+// Reference: the k-th packet of every reader forms round k; Read hands out round k exactly when the packet that
+// completes it arrives, and nothing otherwise (rounds complete in order because each reader fills them in order).
+func readGroupCase(r *rand.Rand, hist map[string]int) string {
+	n := 2 + r.Intn(3)
+	readers := make([]*packet.Reader, n)
+	for i := range readers {
+		readers[i] = packet.NewReader()
+		defer readers[i].Close()
+	}
+	g := packet.NewReadGroup(readers)
+	defer g.Close()
+	sent := make([][]*packet.Packet, n)
+	done := 0 // rounds handed out so far
+	steps := 3 + r.Intn(16)
+	var trace []string
+	for s := 0; s < steps; s++ {
+		i := r.Intn(n)
+		// keep the readers within two rounds of each other most of the time, so that rounds overlap
+		if len(sent[i]) > done+2 && r.Intn(4) != 0 {
+			continue
+		}
+		p := packet.New(types.NewInt(100*i + len(sent[i])))
+		sent[i] = append(sent[i], p)
+		trace = append(trace, fmt.Sprintf("r%d#%d", i, len(sent[i])-1))
+		got := g.Read(readers[i], p)
+		complete := true
+		for j := range sent {
+			if len(sent[j]) <= done {
+				complete = false
+			}
+		}
+		if !complete {
+			if got != nil {
+				return fmt.Sprintf("read group with %d readers, arrivals %v: a round was handed out although reader(s) have not contributed to round %d yet", n, trace, done)
+			}
+			continue
+		}
+		if len(got) != n {
+			return fmt.Sprintf("read group with %d readers, arrivals %v: the packet completing round %d did not hand the round out (got %d packets)", n, trace, done, len(got))
+		}
+		for j := range got {
+			if got[j] != sent[j][done] {
+				return fmt.Sprintf("read group with %d readers, arrivals %v: round %d was handed out with a packet of another round in slot %d", n, trace, done, j)
+			}
+		}
+		done++
+		hist["readgroup-rounds"]++
+	}
+	if n >= 3 {
+		hist["readgroup-3plus"]++
 	}
 	return ""
 }
